@@ -200,4 +200,44 @@ fn case_strategy() -> impl Strategy<Value = Case> {
 fn run(e: &Engine) {
     e.proptest("queue-histories", e.tier.pick(200_000, 10_000_000), case_strategy, check);
     e.require_fraction("overflow-pop-overflow", "overflow", 0.2);
+    // bounded-exhaustive: EVERY sequence of up to 8 (9) operations over {push x, push y, push long-text, pop, clear}
+    // on the unbounded queue and on capacities 1..=4
+    let max_ops = if cfg!(debug_assertions) { 6u32 } else { e.tier.pick(8u32, 9) };
+    e.enumerate::<Case, _, _>(
+        "every-short-operation-sequence",
+        5 * max_ops as u64,
+        move |part, f| {
+            let cap = (part % 5) as u8;
+            let len = (part / 5) as u32 + 1;
+            for code in 0..5u32.pow(len) {
+                let mut c = code;
+                let ops: Vec<Op> = (0..len)
+                    .map(|_| {
+                        let o = c % 5;
+                        c /= 5;
+                        match o {
+                            0 => Op::Push(3),
+                            1 => Op::Push(140),
+                            2 => Op::Push(250),
+                            3 => Op::Pop,
+                            _ => Op::Clear,
+                        }
+                    })
+                    .collect();
+                if !f(Case { cap, ops }) {
+                    return;
+                }
+            }
+        },
+        check,
+    );
+    // queues of 2^16 +- a few items on the unbounded queue (16-bit counts)
+    if !cfg!(debug_assertions) {
+        let mut ops: Vec<Op> = (0..65_534u32).map(|i| Op::Push((i % 251) as u8)).collect();
+        ops.extend([Op::Len, Op::Push(1), Op::Len, Op::Push(2), Op::Len, Op::Push(3), Op::Pop, Op::Pop, Op::Len]);
+        ops.extend((0..4_500u32).map(|i| Op::Push((i % 13) as u8)));
+        ops.extend((0..100).map(|_| Op::Pop));
+        ops.extend([Op::Len, Op::Clear, Op::Push(9), Op::Pop, Op::Pop]);
+        e.fixed("queue-beyond-65535-items", vec![Case { cap: 0, ops }], check);
+    }
 }
